@@ -954,6 +954,13 @@ func (s *Store) monitorLeaseAsPrimary(ctx context.Context, lease Lease) error {
 	demoteCh := s.demoteCh
 	s.mu.Unlock()
 
+	// A halt lock held on a previous primary means nothing now that this node
+	// is the primary itself: its transactions are local ones. (The lock ends on
+	// the node that granted it when it is released there or when its TTL ends.)
+	for _, db := range s.DBs() {
+		db.remoteHaltLock.Store((*HaltLock)(nil))
+	}
+
 	// Mark store as ready if we've obtained primary status.
 	s.markReady()
 
